@@ -17,7 +17,12 @@ Section Inherit.
              (prev new : list ind) : option (list ind) :=
     match sc with
     | Generational => Some (firstn pop_size new)                  (* direct_inheritance *)
-    | _ => selection_call_g bt dm t o pop_size (steady_full prev new) pop_size
+    | _ =>                                                         (* steady_state_inheritance *)
+        let full := steady_full prev new in
+        (* nothing to choose from: returned as it is (selection would replicate a single
+           individual up to pop_size) *)
+        if length full <=? 1 then Some full
+        else selection_call_g bt dm t o pop_size full pop_size
     end.
 End Inherit.
 Definition inherit := inherit_g better dom.
@@ -26,13 +31,16 @@ Definition inh_admits (sc : scheme) (t : sel_type) (pop_size : nat) (prev new : 
            (out : option (list ind)) : bool :=
   match sc with
   | Generational => match out with Some o => inds_eqb o (firstn pop_size new) | None => false end
-  | _ => call_admits t pop_size (steady_full prev new) pop_size out
+  | _ => let full := steady_full prev new in
+         if length full <=? 1 then match out with Some o => inds_eqb o full | None => false end
+         else call_admits t pop_size full pop_size out
   end.
 
-(* the property's clauses on the OBSERVED output: drawn from the inputs, no individual twice,
-   at most pop_size.  Steady-state with a single distinct individual replicates it (the
-   documented behaviour of selection); the generational scheme is judged on repeat-free
-   new populations. *)
+(* the property's clauses on the OBSERVED output: drawn from the inputs, at most pop_size, and
+   no individual twice - unconditionally on individually repeat-free prev and new (the
+   single-individual replication of the property text is for Selection only), and also
+   whenever at least two distinct individuals exist (selection de-duplicates repeated inputs);
+   the generational scheme is judged on repeat-free new populations. *)
 Definition inh_holds_b (sc : scheme) (pop_size : nat) (prev new : list ind) (out : option (list ind)) : bool :=
   match out with
   | None => false
@@ -40,7 +48,7 @@ Definition inh_holds_b (sc : scheme) (pop_size : nat) (prev new : list ind) (out
       subset_b o (prev ++ new) && (length o <=? pop_size) &&
       match sc with
       | Generational => implb (nodup_uid new) (nodup_uid o)
-      | _ => implb (2 <=? n_distinct (prev ++ new)) (nodup_uid o)
+      | _ => implb ((nodup_uid prev && nodup_uid new) || (2 <=? n_distinct (prev ++ new))) (nodup_uid o)
       end
   end.
 
@@ -68,7 +76,8 @@ Definition inherit_custom (f : list ind -> nat -> list ind) (sc : scheme) (pop_s
            (prev new : list ind) : list ind :=
   match sc with
   | Generational => firstn pop_size new
-  | _ => f (steady_full prev new) pop_size
+  | _ => let full := steady_full prev new in
+         if length full <=? 1 then full else f full pop_size
   end.
 
 (* the user functions the driver passes (known to it, so the comparison can be exact) *)
